@@ -5,7 +5,8 @@ from ..mon import exec_mon
 from ..ref import refexec
 
 RULE = (
-    "per generated schema (code-built through the public constructors; objects, interfaces, unions, "
+    "per generated schema (two thirds code-built through the public constructors, one third built from SDL "
+    "with extension blocks and resolvers registered through register_resolver; objects, interfaces, unions, "
     "coded enums, input objects, strict/transparent custom scalars, wrappers) a history of 6-20 "
     "requests is served by the same Schema object: valid-by-construction operations (fragments, "
     "inline fragments on abstract types, aliases, merged keys, @skip/@include, variables, custom "
@@ -60,7 +61,13 @@ def run(ctx):
 
     rng = ctx.rng("cases")
     for ci in range(ctx.n(45)):
-        case = exec_mon.Case(rng, "c04:%d:%d:%d" % (ctx.seed, ctx.shard, ci))
+        mode = "sdl" if ci % 3 == 2 else "code"
+        try:
+            case = exec_mon.Case(rng, "c04:%d:%d:%d" % (ctx.seed, ctx.shard, ci), mode=mode)
+        except RecursionError:
+            ctx.count("sdl_case_skipped:default-nests-own-input-type")   # known finding of C11
+            continue
+        ctx.count("schemas:" + mode)
         case.sdl = S.to_sdl(case.ir)[0]
         try:
             case.schema.validate()
